@@ -888,7 +888,24 @@ func par3(c *Ctx) {
 		if !isField(lk.X, idx) {
 			return "looked up in the wrong index (expected " + idx + ")"
 		}
-		if !keyOK(lk.Index) {
+		key := lk.Index
+		for {
+			// "" + text (a prefix parameter that is empty at this call site)
+			bo, isBo := key.(*ssa.BinOp)
+			if !isBo || bo.Op != token.ADD {
+				break
+			}
+			if sv, isS := ir.ConstString(bo.X); isS && sv == "" {
+				key = bo.Y
+				continue
+			}
+			if sv, isS := ir.ConstString(bo.Y); isS && sv == "" {
+				key = bo.X
+				continue
+			}
+			break
+		}
+		if !keyOK(key) {
 			return "not keyed by the token's text"
 		}
 		okv := extractOf(lk, 1)
